@@ -10,6 +10,9 @@ import GIV.Lemmas.FsxFS
 import GIV.Lemmas.FsxSave
 import GIV.Lemmas.FsxCleanBytes
 import GIV.Lemmas.FsxMore
+import GIV.Lemmas.FilepathGoClean
+import GIV.Lemmas.FilepathGoJoin
+import GIV.Lemmas.FilepathGoDir
 
 namespace GIV.C15
 open GIV GIV.Txtar GIV.Fsx
@@ -597,5 +600,193 @@ example : exTree.find [46, 104] [] = some (.file [104, 10]) ∧ ¬ NoDot ⟨fals
     HasMarkerLine (fixNL [45, 45, 32, 120, 32, 45, 45, 10]) ∧ TreeOK ⟨false, false⟩ exTree := by
   refine ⟨by simp [exTree, Forest.find, Tree.find], by unfold NoDot; decide +kernel,
     by simp [exTree, Forest.find, Tree.find], by decide +kernel, by decide +kernel⟩
+
+/-! ### filepath.Clean and isAbs, translated from source
+
+`GIV.Go.Filepath.*` (GIV/Gen/FilepathGo.lean) is the translation of the toolchain's internal/filepathlite
+(path.go, path_unix.go, path_nonwindows.go: `Clean`, the `lazybuf` methods, `IsPathSeparator`, `IsAbs`,
+`volumeNameLen`, `FromSlash`), `GIV.Go.TxtarWrite.isAbs` (GIV/Gen/TxtarAbsGo.lean) that of /repo's txtar/archive.go
+`isAbs`; both are regenerated on every run. `none` = a Go panic or an exhausted loop budget. -/
+
+/-- **go_Clean_agrees.** The translated filepath.Clean computes `cleanPath` — the function every theorem above
+is about — for every string. -/
+theorem go_Clean_agrees (p : Bytes) : GIV.Go.Filepath.Clean p = some (cleanPath p) :=
+  GIV.FilepathGo.Clean_eq_path p
+
+/-- the same against the model's transcription of the byte loop (`cleanBytes`), which the translated loop follows
+step by step (lazy buffer against plain buffer). -/
+theorem go_Clean_byteloop (p : Bytes) : GIV.Go.Filepath.Clean p = some (cleanBytes p) :=
+  GIV.FilepathGo.Clean_eq p
+
+/-- **go_Clean_total.** The translated Clean never panics and every translated loop ends within its budget:
+`path[r+1]`, `path[r+2]`, `b.path[b.w]`, `b.path[:b.w]`, `b.buf[b.w] = c`, `b.buf[i]`, `make`, and the slices of
+`lazybuf.string` are all in range, for every input. -/
+theorem go_Clean_total (p : Bytes) : (GIV.Go.Filepath.Clean p).isSome = true := by
+  rw [go_Clean_agrees]; rfl
+
+example : GIV.Go.Filepath.Clean [97, 47, 46, 46, 47, 46, 46, 47, 98] = some [46, 46, 47, 98] := by decide +kernel  -- "a/../../b"
+example : GIV.Go.Filepath.Clean [97, 47, 47, 98, 47, 46, 47, 99, 47, 46, 46] = some [97, 47, 98] := by decide +kernel  -- "a//b/./c/.."
+example : GIV.Go.Filepath.Clean [] = some [46] ∧ GIV.Go.Filepath.Clean [47] = some [47] := by decide +kernel  -- "", "/"
+example : GIV.Go.Filepath.Clean [46, 46, 47, 120] = some [46, 46, 47, 120] := by decide +kernel  -- "../x"
+example : GIV.Go.Filepath.Clean [97, 47, 98, 47, 46, 46, 47, 46, 46, 47, 46, 46] = some [46, 46] := by decide +kernel  -- "a/b/../../.."
+example : GIV.Go.Filepath.Clean [47, 46, 46, 47, 97, 47, 47] = some [47, 97] := by decide +kernel  -- "/../a//"
+example : (GIV.Go.Filepath.Clean [46, 46, 47, 46, 46, 47, 97, 47, 46, 46]).isSome = true := go_Clean_total _
+
+/-- **go_isAbs_agrees.** The translated `isAbs` of txtar/archive.go, and the library's filepath.IsAbs it calls, are
+the regenerated `Gen.Fsx.isAbs` (the test the model's `writeOne` uses through `writeRejects`): "starts with '/'". -/
+theorem go_isAbs_agrees (p : Bytes) :
+    GIV.Go.TxtarWrite.isAbs p = some (Gen.Fsx.isAbs p) ∧ GIV.Go.Filepath.IsAbs p = some (Gen.Fsx.isAbs p) := by
+  have h : decide (p.head? = some SEP) = Gen.Fsx.isAbs p := by
+    by_cases hh : p.head? = some SEP
+    · rw [decide_eq_true hh, (isAbs_iff p).mpr hh]
+    · rw [decide_eq_false hh]
+      cases hb : Gen.Fsx.isAbs p with
+      | false => rfl
+      | true => exact absurd ((isAbs_iff p).mp hb) hh
+  rw [GIV.FilepathGo.isAbs_eq, GIV.FilepathGo.IsAbs_eq, h]
+  exact ⟨rfl, rfl⟩
+
+example : GIV.Go.TxtarWrite.isAbs [47, 97] = some true ∧ GIV.Go.TxtarWrite.isAbs [97, 47] = some false ∧
+    GIV.Go.TxtarWrite.isAbs [] = some false := by decide +kernel
+
+/-- Write's decision for an entry name, computed by the TRANSLATED Clean and isAbs and the three literal disjuncts
+of the source line (`fp == "."`, `fp == ".."`, `strings.HasPrefix(fp, "../")`). -/
+def goRejects (name : Bytes) : Option Bool := do
+  let fp ← GIV.Go.Filepath.Clean name
+  let a ← GIV.Go.TxtarWrite.isAbs fp
+  pure (a || fp == [46] || fp == [46, 46] || GoLib.hasPrefix fp [46, 46, 47])
+
+/-- **go_rejects_agrees.** That decision never panics and is the one the model's `writeOne` takes:
+the regenerated `writeRejects` on `cleanPath name`. -/
+theorem go_rejects_agrees (name : Bytes) : goRejects name = some (Gen.Fsx.writeRejects (cleanPath name)) := by
+  unfold goRejects
+  rw [go_Clean_agrees]
+  simp only [Option.pure_def, Option.bind_eq_bind, Option.bind_some, (go_isAbs_agrees _).1]
+  have hp : GoLib.hasPrefix (cleanPath name) [46, 46, 47] = ([46, 46, 47] : Bytes).isPrefixOf (cleanPath name) := by
+    unfold GoLib.hasPrefix
+    generalize cleanPath name = c
+    rcases c with _ | ⟨a, _ | ⟨b, _ | ⟨d, r⟩⟩⟩ <;> simp [List.isPrefixOf]
+    rw [BEq.comm (a := a), BEq.comm (a := b), BEq.comm (a := d)]
+  rw [hp]
+  rfl
+
+example : goRejects [97, 47, 46, 46, 47, 46, 46, 47, 98] = some true ∧ goRejects [97, 47, 46, 46] = some true ∧
+    goRejects [47, 97] = some true ∧ goRejects [97, 47, 47, 98, 47, 46, 47, 99, 47, 46, 46] = some false ∧
+    goRejects [] = some true ∧ goRejects [46, 46, 97] = some false := by decide +kernel
+
+/-- **go_accepted_beneath.** Containment, stated over the translated source: whenever the translated Clean returns
+`fp` for an entry name and the translated isAbs and the three literal tests let it pass, the path Write joins
+(`joinPath dir fp`, which is `Clean(dir + "/" + fp)` by `join_is_clean`) lies STRICTLY beneath `dir`: `dir` is a
+proper prefix of it, element by element. -/
+theorem go_accepted_beneath (dir : Path) (name fp : Bytes) (hc : GIV.Go.Filepath.Clean name = some fp)
+    (ha : GIV.Go.TxtarWrite.isAbs fp = some false) (h1 : fp ≠ dotB) (h2 : fp ≠ dotdotB) (h3 : ¬ dotdotSlash <+: fp) :
+    dir <+: joinPath dir fp ∧ joinPath dir fp ≠ dir ∧
+      ∃ ns : List Bytes, ns ≠ [] ∧ (∀ c ∈ ns, Normal c) ∧ joinPath dir fp = dir ++ ns := by
+  rw [go_Clean_agrees] at hc
+  have hfp : fp = cleanPath name := (Option.some.inj hc).symm
+  rw [(go_isAbs_agrees fp).1] at ha
+  have hab : Gen.Fsx.isAbs fp = false := Option.some.inj ha
+  have hhead : fp.head? ≠ some SEP := by
+    intro hh; rw [(isAbs_iff fp).mpr hh] at hab; cases hab
+  have hrej : Gen.Fsx.writeRejects (cleanPath name) = false := by
+    rw [← hfp]; exact rejects_only fp hhead h1 h2 h3
+  obtain ⟨ns, hne, hns, hs, _⟩ := accepted_shape hrej
+  have hj : joinPath dir fp = dir ++ ns := by rw [hfp]; exact joinPath_normal dir hs hns
+  refine ⟨?_, ?_, ns, hne, hns, hj⟩
+  · rw [hj]; exact ⟨ns, rfl⟩
+  · rw [hj]; intro e
+    have := congrArg List.length e
+    simp at this
+    exact hne this
+
+/-- … and on path strings: the joined path starts with `dir + "/"`. -/
+theorem go_accepted_beneath_str (dir : Path) (hd : dir ≠ []) (name fp : Bytes) (hc : GIV.Go.Filepath.Clean name = some fp)
+    (ha : GIV.Go.TxtarWrite.isAbs fp = some false) (h1 : fp ≠ dotB) (h2 : fp ≠ dotdotB) (h3 : ¬ dotdotSlash <+: fp) :
+    pathStr dir ++ [SEP] <+: pathStr (joinPath dir fp) := by
+  obtain ⟨hp, hne, _⟩ := go_accepted_beneath dir name fp hc ha h1 h2 h3
+  exact pathStr_prefix_of_beneath hp hne hd
+
+/-- **go_rejected_writes_nothing.** When the decision computed by the translated code is "reject", the model's
+`writeOne` returns the "outside parent directory" error and leaves the file system as it was; when it is "accept",
+everything the entry adds is inside `dir` (`writeOne_inside`, the step `write_contained` is built from). -/
+theorem go_rejected_writes_nothing (dir : Path) (fs : FS) (f : File) (h : goRejects f.name = some true) :
+    writeOne dir fs f = (some .outside, fs) := by
+  rw [go_rejects_agrees] at h
+  exact writeOne_rejected (Option.some.inj h)
+
+example : (GIV.Go.Filepath.Clean [97, 47, 46, 47, 47, 98]).bind (fun fp => some (joinPath [[100]] fp)) = some [[100], [97], [98]] := by
+  decide +kernel
+example : goRejects [99, 47, 46, 46, 47, 46, 46] = some true ∧
+    writeOne [[97], [98], [99]] [] ⟨[99, 47, 46, 46, 47, 46, 46], [104]⟩ = (some .outside, []) := by decide +kernel
+
+/-! ### filepath.Join, translated from source (`func join` of GOROOT/src/path/filepath/path_unix.go) -/
+
+/-- **go_Join_agrees.** For an absolute normalised `dir` the translated `filepath.Join(dir, fp)` never panics and
+is the path string of the model's `joinPath dir fp` — for every `fp`. In general (`go_Join_spec`) Join skips leading
+empty elements and returns the translated Clean of the rest joined with "/". -/
+theorem go_Join_agrees (dir : Path) (hd : ∀ c ∈ dir, Normal c) (fp : Bytes) :
+    GIV.Go.FilepathJoin.join [pathStr dir, fp] = some (pathStr (joinPath dir fp)) := by
+  rw [GIV.FilepathGo.join2_eq _ _ (by unfold pathStr; simp), join_is_clean dir hd fp]
+
+theorem go_Join_spec (elem : List Bytes) : GIV.Go.FilepathJoin.join elem = some (GIV.FilepathGo.joinSpec elem) :=
+  GIV.FilepathGo.join_eq elem
+
+example : GIV.Go.FilepathJoin.join [[47, 112, 47, 100], [97, 47, 46, 46, 47, 120]] = some [47, 112, 47, 100, 47, 120] := by
+  decide +kernel  -- Join("/p/d", "a/../x") = "/p/d/x"
+example : GIV.Go.FilepathJoin.join [[], [], [97, 47, 47, 98], []] = some [97, 47, 98] ∧ GIV.Go.FilepathJoin.join [[], []] = some [] ∧
+    GIV.Go.FilepathJoin.join [[47, 112], [46, 46, 47, 46, 46, 47, 120]] = some [47, 120] := by decide +kernel
+
+/-- **go_write_path_beneath.** Containment over the translated source, end to end: for an absolute normalised,
+non-root `dir`, whenever the translated Clean returns `fp` for an entry name and the translated isAbs and the three
+literal tests of Write let it pass, the translated `filepath.Join(dir, fp)` — the path Write hands to MkdirAll /
+OpenFile — returns a string that starts with `dir + "/"`. -/
+theorem go_write_path_beneath (dir : Path) (hd : ∀ c ∈ dir, Normal c) (hne : dir ≠ []) (name fp : Bytes)
+    (hc : GIV.Go.Filepath.Clean name = some fp) (ha : GIV.Go.TxtarWrite.isAbs fp = some false)
+    (h1 : fp ≠ dotB) (h2 : fp ≠ dotdotB) (h3 : ¬ dotdotSlash <+: fp) :
+    ∃ full, GIV.Go.FilepathJoin.join [pathStr dir, fp] = some full ∧ pathStr dir ++ [SEP] <+: full ∧
+      full = pathStr (joinPath dir fp) :=
+  ⟨_, go_Join_agrees dir hd fp, go_accepted_beneath_str dir hne name fp hc ha h1 h2 h3, rfl⟩
+
+example : (GIV.Go.Filepath.Clean [97, 47, 46, 47, 47, 98]).bind (fun fp => GIV.Go.FilepathJoin.join [[47, 100], fp]) =
+    some [47, 100, 47, 97, 47, 98] := by decide +kernel
+
+/-! ### filepath.Dir, translated from source (`Dir`, `VolumeName` of internal/filepathlite/path.go) -/
+
+/-- **go_Dir_agrees.** For an absolute normalised non-root path the translated `filepath.Dir` never panics and is
+the path string of `dropLast` — the directory the model's `writeOne` hands to `mkdirAll`. In general
+(`go_Dir_spec`) Dir is the translated Clean of everything up to and including the last separator. -/
+theorem go_Dir_agrees (q : Path) (hq : ∀ c ∈ q, Normal c) (hne : q ≠ []) :
+    GIV.Go.Filepath.Dir (pathStr q) = some (pathStr q.dropLast) :=
+  GIV.FilepathGo.Dir_pathStr q hq hne
+
+theorem go_Dir_spec (front c : Bytes) (hf : front = [] ∨ front.getLast? = some SEP) (hc : SEP ∉ c) :
+    GIV.Go.Filepath.Dir (front ++ c) = some (cleanPath front) :=
+  GIV.FilepathGo.Dir_eq front c hf hc
+
+example : GIV.Go.Filepath.Dir [47, 112, 47, 100, 47, 120] = some [47, 112, 47, 100] ∧ GIV.Go.Filepath.Dir [47, 120] = some [47] ∧
+    GIV.Go.Filepath.Dir [97, 47, 47, 98, 47, 46, 46, 47, 99] = some [97] ∧ GIV.Go.Filepath.Dir [120] = some [46] ∧
+    GIV.Go.Filepath.Dir [] = some [46] := by decide +kernel
+
+/-- **go_write_paths.** The two paths Write computes for an accepted entry, over the translated Clean, isAbs, Join
+and Dir: `fp = Join(dir, Clean(name))` is `dir` followed by a non-empty list of ordinary elements, and
+`Dir(fp)` — the argument of MkdirAll — is `dir` followed by all but the last of them; neither call panics. -/
+theorem go_write_paths (dir : Path) (hd : ∀ c ∈ dir, Normal c) (name fp : Bytes)
+    (hc : GIV.Go.Filepath.Clean name = some fp) (ha : GIV.Go.TxtarWrite.isAbs fp = some false)
+    (h1 : fp ≠ dotB) (h2 : fp ≠ dotdotB) (h3 : ¬ dotdotSlash <+: fp) :
+    ∃ ns : List Bytes, ns ≠ [] ∧ (∀ c ∈ ns, Normal c) ∧
+      GIV.Go.FilepathJoin.join [pathStr dir, fp] = some (pathStr (dir ++ ns)) ∧
+      GIV.Go.Filepath.Dir (pathStr (dir ++ ns)) = some (pathStr (dir ++ ns.dropLast)) := by
+  obtain ⟨_, _, ns, hne, hns, hj⟩ := go_accepted_beneath dir name fp hc ha h1 h2 h3
+  refine ⟨ns, hne, hns, ?_, ?_⟩
+  · rw [go_Join_agrees dir hd fp, hj]
+  · have hall : ∀ c ∈ dir ++ ns, Normal c := by
+      intro c hc
+      rcases List.mem_append.mp hc with h | h
+      · exact hd c h
+      · exact hns c h
+    rw [go_Dir_agrees (dir ++ ns) hall (by simp [hne]), List.dropLast_append_of_ne_nil hne]
+
+example : (GIV.Go.FilepathJoin.join [[47, 100], [97, 47, 98]]).bind GIV.Go.Filepath.Dir = some [47, 100, 47, 97] := by
+  decide +kernel
 
 end GIV.C15
